@@ -168,7 +168,14 @@ def r12_3(ctx: Ctx):
               'no process-wide singleton is reachable from the per-solver components (other than through the shared '
               'inputs)', f'a process-wide singleton is reachable from the solver state: '
                          f'{[s.describe() for s in sing[:2]]}', key=f'{rid}::graph::{sing[0].site if sing else ""}')
-    # shared inputs are read-only for the library
+    r12_3_inputs_readonly(ctx)
+
+
+def r12_3_inputs_readonly(ctx: Ctx):
+    """The shared inputs (problem, parameters) are never written by the library."""
+    rid = 'R12.3'
+    roles = C.roles_of(ctx)
+    pta = ctx.pta
     params_cls = ctx.ix.cls('SolverParameters')
     problem_cls = ctx.ix.cls('Problem')
     nm = 0
@@ -191,6 +198,12 @@ def r12_3(ctx: Ctx):
                                                      f'{m.text()}', key=ctx.key_for(rid, m.func, m.node))
     ctx.ok(rid, 'library', f'{nm} attribute stores in the solver/output code: none writes the problem or the '
                            f'parameters', 'iOpt/')
+    r12_3_bounds_copied(ctx)
+
+
+def r12_3_bounds_copied(ctx: Ctx):
+    rid = 'R12.3'
+    pta = ctx.pta
     # bounds arrays of the problem are copied by the evolvent
     ev = ctx.ix.cls('Evolvent')
     eo = [o for o in pta._objs.values() if o.cls is ev and o.kind in ('inst', 'ext_inst')]
